@@ -385,12 +385,11 @@ nextIntermediate:
 		if err != nil {
 			continue
 		}
+		// The chains above an intermediate depend on the chain below it (path
+		// length constraints, certificates already used), so they cannot be
+		// cached per intermediate.
 		var childChains [][]*Certificate
-		childChains, ok := cache[intermediateNum]
-		if !ok {
-			childChains, err = intermediate.buildChains(cache, appendToFreshChain(currentChain, intermediate), opts)
-			cache[intermediateNum] = childChains
-		}
+		childChains, err = intermediate.buildChains(cache, appendToFreshChain(currentChain, intermediate), opts)
 		chains = append(chains, childChains...)
 	}
 
